@@ -26,14 +26,20 @@ def main():
         print(f'no check for {pid}', file=sys.stderr)
         return HARNESS_ERROR
     if a.replay:
+        # replay = decide the recorded harness again on the current tree (the replay file names it) and report whether it still fails
         with open(a.replay) as f:
             rp = json.load(f)
-        return mod.replay(rp)
+        print(f'replaying {rp.get("harness")} : {rp.get("call")}')
+        a.only = (rp.get('harness') or '').split('.')[-1].split(':')[0] or None
     rep = Report(pid, a.tier, seed, getattr(mod, 'LEVEL', 'other'))
     os.environ['VERIF_ONLY'] = a.only or ''
     os.environ['VERIF_PID'] = pid
     try:
         mod.run(rep, a.tier, seed)
+        if a.replay:
+            hit = [v for v in rep.violations if v['harness'] == rp.get('harness')]
+            print('REPRODUCED' if hit else 'not reproduced on the current tree')
+            return 1 if hit else 0
         rc = rep.finish(mod.EXPLANATION, mod.RULE)
     except Exception:
         traceback.print_exc()
